@@ -94,6 +94,7 @@ fn gen_model(w: &mut Tape, syn: Syntax, all_undefined: bool) -> Vec<ds::Elem> {
     let cfg = GenCfg {
         encapsulated: syn == Syntax::ExplicitLE,
         all_undefined,
+        latin1: w.chance(1, 4),
         ..Default::default()
     };
     let s = ds::gen_dataset(w, &cfg);
@@ -407,6 +408,7 @@ fn run_c04(cfg: usize, w: &mut Tape, env: &EnvRef) -> RunResult {
                                     pixel: false,
                                     encapsulated: false,
                                     all_undefined: true,
+                                    latin1: false,
                                 };
                                 let m = ds::gen_dataset(&mut t2, &cfgm);
                                 m.into_iter().find(|x| matches!(x.val, ds::Val::Prim(_)))
